@@ -234,7 +234,9 @@ func sutNode(t target, nv NewVal) generic.Node {
 	u := nv.U64
 	switch fd.Kind() {
 	case protoreflect.MessageKind:
-		return generic.NewNode(dproto.MESSAGE, protowire.AppendBytes(nil, nv.Msg)) // length prefix + payload, as GetByPath returns message nodes
+		// length prefix + payload, as GetByPath returns message nodes; the buffer carries spare capacity like every harness
+		// buffer (a node at the very end of an exact-size buffer holds a pointer one past the allocation: C06-end-pointer-caller-buffer)
+		return generic.NewNode(dproto.MESSAGE, protowire.AppendBytes(make([]byte, 0, len(nv.Msg)+32), nv.Msg))
 	case protoreflect.BoolKind:
 		return generic.NewNodeBool(u&1 == 1)
 	case protoreflect.EnumKind:
